@@ -105,13 +105,37 @@ theorem length_flatten_map (e : Val → List Nat) (s : Val → Nat) (vs : List V
     simp only [List.map_cons, List.flatten_cons, List.length_append, sumL,
       h x (List.mem_cons_self ..), ih (fun y hy => h y (List.mem_cons_of_mem _ hy))]
 
-/-- **size_exact**: a well-typed value encodes to exactly `size f v` bytes. -/
-theorem size_exact (f : Fmt) : ∀ v, WT f v → (enc f v).length = size f v := by
+/-- a well-typed value has the shape of its format. -/
+theorem WT_shape (f : Fmt) : ∀ v, WT f v → Shape f v := by
+  induction f with
+  | unit => intro v _; trivial
+  | uint w => intro v ⟨n, hv, _⟩; exact ⟨n, hv⟩
+  | raw n => intro v h; exact h
+  | hex2 st => intro v ⟨n, hv, _⟩; exact ⟨n, hv⟩
+  | framed pre f post ih => intro v h; exact ih v h
+  | pair a b iha ihb => intro v ⟨x, y, hv, hx, hy⟩; exact ⟨x, y, hv, iha x hx, ihb y hy⟩
+  | vec mg w f ih => intro v ⟨vs, hv, _, _, hall⟩; exact ⟨vs, hv, fun x hx => ih x (hall x hx)⟩
+  | opt kp ru f ih =>
+    intro v h
+    rcases h with hv | ⟨x, hv, hx⟩
+    · exact Or.inl hv
+    · exact Or.inr ⟨x, hv, ih x hx⟩
+  | tailIf kp a p b iha ihb =>
+    intro v ⟨x, y, hv, hx, hy⟩
+    refine ⟨x, y, hv, iha x hx, ?_⟩
+    rcases hy with ⟨_, s, hs, hws⟩ | ⟨_, hs⟩
+    · exact Or.inr ⟨s, hs, ihb s hws⟩
+    · exact Or.inl hs
+
+/-- **size_exact**: every value that has the shape of the format (no range condition, any
+    combination of optional fields — e.g. a key that still carries a seed it does not write)
+    encodes to exactly `size f v` bytes. -/
+theorem size_exact_shape (f : Fmt) : ∀ v, Shape f v → (enc f v).length = size f v := by
   induction f with
   | unit => intro v h; simp [enc, size]
-  | uint w => intro v ⟨n, hv, _⟩; subst hv; simp [enc, size, leBytes_length]
+  | uint w => intro v ⟨n, hv⟩; subst hv; simp [enc, size, leBytes_length]
   | raw n => intro v ⟨bs, hv, hl⟩; subst hv; simp [enc, size, hl]
-  | hex2 st => intro v ⟨n, hv, _⟩; subst hv; simp [enc, size]
+  | hex2 st => intro v ⟨n, hv⟩; subst hv; simp [enc, size]
   | framed pre f post ih =>
     intro v h
     simp only [enc, size, List.length_append, ih v h]
@@ -119,7 +143,7 @@ theorem size_exact (f : Fmt) : ∀ v, WT f v → (enc f v).length = size f v := 
     intro v ⟨x, y, hv, hx, hy⟩; subst hv
     simp only [enc, size, List.length_append, iha x hx, ihb y hy]
   | vec mg w f ih =>
-    intro v ⟨vs, hv, _, hall⟩; subst hv
+    intro v ⟨vs, hv, hall⟩; subst hv
     simp only [enc, size, List.length_append, leBytes_length]
     rw [length_flatten_map (enc f) (size f) vs (fun x hx => ih x (hall x hx))]
   | opt kp ru f ih =>
@@ -129,9 +153,13 @@ theorem size_exact (f : Fmt) : ∀ v, WT f v → (enc f v).length = size f v := 
     · subst hv; simp only [enc, size, List.length_cons, ih x hx]; omega
   | tailIf kp a p b iha ihb =>
     intro v ⟨x, y, hv, hx, hy⟩; subst hv
-    rcases hy with ⟨hp, s, hs, hws⟩ | ⟨hp, hs⟩
-    · subst hs; simp only [enc, size, hp, if_true, List.length_append, iha x hx, ihb s hws]
-    · subst hs; simp [enc, size, hp, iha x hx]
+    rcases hy with hs | ⟨s, hs, hws⟩
+    · subst hs; by_cases hp : p x = true <;> simp [enc, size, hp, iha x hx]
+    · subst hs; by_cases hp : p x = true <;> simp [enc, size, hp, iha x hx, ihb s hws]
+
+/-- `size_exact` for well-typed values. -/
+theorem size_exact (f : Fmt) (v : Val) (h : WT f v) : (enc f v).length = size f v :=
+  size_exact_shape f v (WT_shape f v h)
 
 /-! ### round trip -/
 
@@ -170,9 +198,11 @@ theorem roundtrip (f : Fmt) :
     intro v rest ⟨x, y, hv, hx, hy⟩; subst hv
     simp only [enc, decG, List.append_assoc, iha x _ hx, ihb y _ hy]
   | vec mg w f ih =>
-    intro v rest ⟨vs, hv, hlen, hall⟩; subst hv
+    intro v rest ⟨vs, hv, hlen, hblk, hall⟩; subst hv
+    have hnb : ¬ (mg = VecKind.block ∧ blockMax < vs.length) := by
+      intro ⟨h1, h2⟩; have := hblk h1; omega
     simp only [enc, decG, List.append_assoc,
-      readFlat_append' w _ _ (leBytes_length w vs.length), leVal_leBytes w _ hlen]
+      readFlat_append' w _ _ (leBytes_length w vs.length), leVal_leBytes w _ hlen, hnb, if_false]
     rw [decN_flatten (decG readFlat f) (enc f) vs (fun x hx r => ih x r (hall x hx))]
   | opt kp ru f ih =>
     intro v rest h
@@ -262,7 +292,7 @@ theorem trunc_err (f : Fmt) :
       rw [hf, hrt]
       simp only [this]
   | vec mg w f ih =>
-    intro v k ⟨vs, hv, hlen, hall⟩ hk; subst hv
+    intro v k ⟨vs, hv, hlen, _, hall⟩ hk; subst hv
     simp only [enc, List.length_append, leBytes_length] at hk
     simp only [dec, decG, enc]
     rw [List.take_append]
@@ -276,6 +306,7 @@ theorem trunc_err (f : Fmt) :
         (fun x hx r => roundtrip f x r (hall x hx))
         (fun x hx k hk => ih x k (hall x hx) hk) (k - w) (by omega)
       rw [this]
+      split <;> rfl
   | opt kp ru f ih =>
     intro v k h hk
     rcases h with hv | ⟨x, hv, hx⟩
@@ -428,11 +459,13 @@ theorem decG_hom {σ τ : Type} (rd₁ : Nat → σ → Option (List Nat × σ))
     | some p =>
       obtain ⟨bs, s1⟩ := p; rw [hs] at h1; simp at h1
       have h2 := decN_hom (decG rd₁ f) (decG rd₂ f) h ih (leVal bs) s1
-      cases hs1 : decN (decG rd₁ f) (leVal bs) s1 with
-      | none => rw [hs1] at h2; simp at h2; simp [decG, hs, ← h1, hs1, ← h2]
-      | some q =>
-        obtain ⟨vs, s2⟩ := q; rw [hs1] at h2; simp at h2
-        simp [decG, hs, ← h1, hs1, ← h2]
+      by_cases hb : mg = VecKind.block ∧ blockMax < leVal bs
+      · simp [decG, hs, ← h1, hb]
+      · cases hs1 : decN (decG rd₁ f) (leVal bs) s1 with
+        | none => rw [hs1] at h2; simp at h2; simp [decG, hs, ← h1, hs1, ← h2, hb]
+        | some q =>
+          obtain ⟨vs, s2⟩ := q; rw [hs1] at h2; simp at h2
+          simp [decG, hs, ← h1, hs1, ← h2, hb]
   | opt kp ru f ih =>
     intro s
     have h1 := hrd 1 s
@@ -642,7 +675,10 @@ theorem wtb_sound (f : Fmt) : ∀ v, wtb f v = true → WT f v := by
     intro v h
     cases v <;> simp [wtb] at h
     rename_i vs
-    exact ⟨vs, rfl, h.1, fun x hx => ih x (h.2 x hx)⟩
+    refine ⟨vs, rfl, h.1.1, ?_, fun x hx => ih x (h.2 x hx)⟩
+    intro hk; rcases h.1.2 with h' | h'
+    · exact absurd hk h'
+    · exact h'
   | opt kp ru f ih =>
     intro v h
     cases v <;> simp [wtb] at h
